@@ -226,6 +226,7 @@ def s_For(self, st, env):
   havoc(self, mod - target_names(st.target), env)
   for key, f in self.frame_formulas():
     self.oblige(f, f'inv-init[{lid}.frame.{key[0]}.{key[1]}]')
+  self._cur_loop = lid
   hkeys = self.havoc_heap(st.body)
   for key, f in self.frame_formulas(hkeys):
     self.assume(f)  # auto-frame invariant: cells outside the function's modifies set keep their entry value
